@@ -54,7 +54,8 @@ def run_demo(wt, demo, exe):
         txt = re.sub(r"/tmp/mut\d?-C\d\d", wt, open(demo2).read())
         open(demo2, "w").write(txt)
         demo = demo2
-        p = sh(["bash", demo, wt], cwd=wt, timeout=600, env=dict(os.environ, TREE=wt, WT=wt, WORKTREE=wt, SKINNY_ROOT=wt, ROOT=wt, SRC=wt, SKINNY_SRC=wt, SKINNY_TREE=wt, SKINNY_DIR=wt, REPO=wt))
+        arg1 = os.path.join(wt, "examples") if re.search(r"\$\{1:-[^}]*examples\}", txt) else wt
+        p = sh(["bash", demo, arg1], cwd=wt, timeout=600, env=dict(os.environ, TREE=wt, WT=wt, WORKTREE=wt, SKINNY_ROOT=wt, ROOT=wt, SRC=wt, SKINNY_SRC=wt, SKINNY_TREE=wt, SKINNY_DIR=wt, REPO=wt))
     else:
         if "_skinny_verif_backend_cap" in open(demo).read():
             # the demonstration pins back ends through the verification hook: it needs a library built with the guard on
